@@ -78,3 +78,48 @@ def rule(ctx, prog, rid, shorts, text, why, floats=True, ints=False,
                       node=uses[0] if uses else fi.node)
     ctx.floor(rid, n, floor, "functions examined for narrow dtypes")
     return n
+
+
+def nan_replaced(prog, fi):
+    """constructs of fi that turn NaN (blank) into an ordinary number:
+    nan_to_num(...), np.where(<isnan / ~isfinite test>, <number>, x), and
+    x[<isnan / ~isfinite test>] = <number>; returns [(node, description)]"""
+    mod = prog.modules[fi.module]
+
+    def callee(c):
+        return (prog.dotted(mod, c.func) if isinstance(c.func, ast.Attribute)
+                else prog.resolve_name(mod, norm(c.func))) or norm(c.func)
+
+    def blank_test(e, depth=0):
+        for x in ast.walk(e):
+            if isinstance(x, ast.Call) and callee(x).split(".")[-1] in (
+                    "isnan", "isfinite", "isinf"):
+                return True
+            if isinstance(x, ast.Name) and depth < 3:
+                for st in ast.walk(fi.node):
+                    if isinstance(st, ast.Assign) and any(
+                            isinstance(t, ast.Name) and t.id == x.id
+                            for t in st.targets) and \
+                            blank_test(st.value, depth + 1):
+                        return True
+        return False
+
+    def number(e):
+        return isinstance(e, ast.Constant) and isinstance(
+            e.value, (int, float)) and not isinstance(e.value, bool) and \
+            e.value == e.value
+    out = []
+    for x in ast.walk(fi.node):
+        if isinstance(x, ast.Call):
+            d = callee(x)
+            if d.split(".")[-1] == "nan_to_num":
+                out.append((x, "nan_to_num"))
+            if d.split(".")[-1] == "where" and len(x.args) == 3 and \
+                    blank_test(x.args[0]) and (number(x.args[1]) or
+                                               number(x.args[2])):
+                out.append((x, "where(blank, number, ...)"))
+        if isinstance(x, ast.Assign) and \
+                isinstance(x.targets[0], ast.Subscript) and \
+                number(x.value) and blank_test(x.targets[0].slice):
+            out.append((x, "blank entries overwritten with a number"))
+    return out
